@@ -1,12 +1,23 @@
+\* quick design instance: election at height 3, one block after it; checked beside the export (no edges printed)
 SPECIFICATION Spec
 CONSTANTS
-  Cand = {"x", "y"}
+  Cand = {"x", "y", "w"}
   CandOrder <- OrderXY
   Other = {"z"}
   MaxScore = 500
-  InitScore <- InitXY
-  MaxH = 3
-  MaxEv = 2
+  InitScore <- InitXYW
+  MaxH = 4
+  EvBound <- EvDesign
+  VotePeriod = 3
+  Pledge <- PledgeXYW
+  InitDeposit = 1
+  Seeds = {"s1", "s2", "s3"}
+  PermOf <- Perm3
+  RepOrder <- Rep4
+  SeedFromSeen = FALSE
+  Nume = 2
+  Deno = 3
+  UpperLimit = 12
 VIEW View
-INVARIANTS TypeOK ScoreInRange ListMirrorsContract ProdBounded
+INVARIANTS TypeOK ReplicasAgree NextValidatorsAgree ScoreInRange ListMirrorsContract ProdBounded ElectedFromContract
 CHECK_DEADLOCK FALSE
